@@ -136,6 +136,11 @@ def poly_case(case, rec):
     smp = f_at(np.linspace(a, b, 41))
     osc = float(np.max(smp) - np.min(smp))
     cond = max(1.0, float(np.max(np.abs(smp))) / osc) if osc > 0 else 1.0
+    if deg >= 1 and osc <= 8 * np.finfo(float).eps * float(np.max(np.abs(smp))):
+        # the non-constant part of the polynomial is below the rounding of its constant part on this interval: in
+        # floating point the function IS constant there, its computed seminorm is legitimately 0
+        rec.exclude('function_constant_to_rounding_on_the_interval')
+        return
     if kind == 'gamma_line':
         cond *= 1.0 + (abs(case['px']) + abs(case['py'])) / 2.5 + abs(case['xstart']) + abs(a) / h
     rec.cls('%s_N%d' % (kind, N))
